@@ -182,6 +182,12 @@ enum Ev {
     P(u32, Option<usize>, u64),
     PT(u32, usize),
     B(String),
+    /// n requests hop, hop+1, ... sent one after the other, each completely written
+    RN(usize, u32),
+    /// hold: what the peer emits from now on is kept back ...
+    H,
+    /// ... and delivered in one piece here
+    U,
 }
 
 type SendResult = std::result::Result<diameter::transport::client::ResponseFuture, ()>;
@@ -252,6 +258,12 @@ pub fn run(st: &State, t: &mut Toks) -> PResult<String> {
                 Ev::PT(h, t.u64()? as usize)
             }
             "B" => Ev::B(t.next()?.to_string()),
+            "RN" => {
+                let n = t.usize_dec()?;
+                Ev::RN(n, t.u32()?)
+            }
+            "H" => Ev::H,
+            "U" => Ev::U,
             s => return Err(format!("client event {}", s)),
         });
     }
@@ -289,6 +301,7 @@ pub fn run(st: &State, t: &mut Toks) -> PResult<String> {
             let mut write_faulted = false;
             let mut resolved: Vec<Option<String>> = Vec::new();
             let mut inflight: Option<(usize, tokio::task::JoinHandle<SendResult>)> = None;
+            let mut held: Option<Vec<u8>> = None;
             let mut emitted: Vec<u32> = vec![0];      // answers emitted so far, per connection (the end-to-end id of an answer)
             let nev = evs.len();
             for (ei, e) in evs.into_iter().enumerate() {
@@ -333,7 +346,16 @@ pub fn run(st: &State, t: &mut Toks) -> PResult<String> {
                         emitted[sel] += 1;
                         let mut b = Vec::new();
                         ans.encode_to(&mut b).expect("encode answer");
-                        conns[sel].0.push(&b);
+                        match &mut held {
+                            Some(v) => v.extend_from_slice(&b),
+                            None => conns[sel].0.push(&b),
+                        }
+                    }
+                    Ev::H => held = Some(Vec::new()),
+                    Ev::U => {
+                        if let Some(v) = held.take() {
+                            conns[sel].0.push(&v);
+                        }
                     }
                     Ev::G(k) => conns[conns.len() - 1].0.allow(Some(k)),
                     Ev::W => {
@@ -420,6 +442,20 @@ pub fn run(st: &State, t: &mut Toks) -> PResult<String> {
                             results.push(Some(r));
                         }
                     }
+                    Ev::RN(n, hop0) => {
+                        if let Some((idx, jh)) = inflight.take() {
+                            conns[conns.len() - 1].0.allow(None);
+                            results[idx] = Some(jh.await.unwrap_or(Err(())));
+                        }
+                        conns[conns.len() - 1].0.allow(None);
+                        let mut c = client.lock().await;
+                        for i in 0..n {
+                            let mut req = DiameterMessage::new(CommandCode::CreditControl, ApplicationId::CreditControl, 0x80, hop0.wrapping_add(i as u32), 7, Arc::clone(&dict));
+                            req.add_avp(264, None, M, Identity::new("host.example.com").into());
+                            let r = c.send_message(req).await.map_err(|_| ());
+                            results.push(Some(r));
+                        }
+                    }
                     Ev::Sel(c) => {
                         if c < conns.len() {
                             sel = c;
@@ -441,7 +477,10 @@ pub fn run(st: &State, t: &mut Toks) -> PResult<String> {
                                 }
                                 conns[sel].0.push(&b[c..]);
                             }
-                            _ => conns[sel].0.push(&b),
+                            _ => match &mut held {
+                                Some(v) => v.extend_from_slice(&b),
+                                None => conns[sel].0.push(&b),
+                            },
                         }
                     }
                     Ev::PT(h, cut) => {
